@@ -184,7 +184,8 @@ def main(tier, seed, replay=None):
         for b in confirmed_bad:
             proj, runs = again[b["group"]]
             p = vlib.save_replay(PID, b["group"] + "-rel", dict(runlayer.project_payload(proj, [r for _, r in runs]), diff=b))
-            violations.append({"key": "rel:%s:%s" % (vlib.digest(proj["files"]), b["alt"].split("/")[1]),
+            cls = runlayer.explain_parallel_unmatched(proj, b["onlyRef"], b["onlyAlt"]) if "located" in proj else None
+            violations.append({"key": cls or "rel:%s:%s" % (vlib.digest(proj["files"]), b["alt"].split("/")[1]),
                                "what": "parallel run differs from -j1: onlyRef=%s onlyAlt=%s exit %s/%s" % (b["onlyRef"][:3], b["onlyAlt"][:3], b["exitRef"], b["exitAlt"]),
                                "replay": p})
         for rj in confirmed_rej:
